@@ -162,6 +162,7 @@ type runner struct {
 	sawGC    bool
 	hot      int // steps left in which every image is checked
 	replayed bool
+	viol     func(lib.Violation) // where violations go (the per-signature collector, or a shrink trial)
 	sweeps   int        // byte-offset sweeps left for this history (thorough tier)
 	hooked   []hookSnap // copies of the directory taken at the crash points of the running operation
 }
@@ -198,6 +199,64 @@ func flushBest(res *lib.Result) {
 	for _, v := range best {
 		res.Violate(v)
 	}
+}
+
+func opsOf(v lib.Violation) []Op {
+	if mp, ok := v.Replay.(map[string]any); ok {
+		if ops, ok := mp["ops"].([]Op); ok {
+			return ops
+		}
+	}
+	return nil
+}
+
+// shrink removes operations from the history of a violation as long as a violation with the
+// same signature is still found (delta debugging with a bounded number of re-runs).
+func shrink(v lib.Violation, f lib.Flags) lib.Violation {
+	ops := opsOf(v)
+	if len(ops) < 6 || len(ops) > 450 {
+		return v
+	}
+	budget := 70
+	trial := func(cand []Op) (lib.Violation, bool) {
+		budget--
+		scratch := lib.NewResult("shrink")
+		r, err := newRunner("shrink-0", f, scratch, lib.NewRNG(99), 1, true)
+		if err != nil {
+			return v, false
+		}
+		defer r.done()
+		var found *lib.Violation
+		r.viol = func(nv lib.Violation) {
+			if nv.Sig == v.Sig && (found == nil || replaySize(nv) < replaySize(*found)) {
+				c := nv
+				found = &c
+			}
+		}
+		r.run(cand)
+		if found == nil {
+			return v, false
+		}
+		return *found, true
+	}
+	for chunk := len(ops) / 2; chunk >= 1 && budget > 0; {
+		removed := false
+		for start := 1; start+chunk <= len(ops) && budget > 0; {
+			cand := append(append([]Op(nil), ops[:start]...), ops[start+chunk:]...)
+			if nv, ok := trial(cand); ok && replaySize(nv) < len(ops) {
+				v, ops, removed = nv, opsOf(nv), true
+				if ops == nil {
+					return v
+				}
+			} else {
+				start += chunk
+			}
+		}
+		if !removed || chunk > len(ops)/2 {
+			chunk /= 2
+		}
+	}
+	return v
 }
 
 // hookSink receives the crash points of the operation that is running (one history at a time
@@ -347,7 +406,7 @@ func (r *runner) checkDir(dbPath, label string, at any, wantOK bool, want []stri
 		} else if strings.Contains(err.Error(), "HANG") {
 			sig = "reopen-hangs-on-crash-image"
 		}
-		keepBest(lib.Violation{Sig: sig,
+		r.viol(lib.Violation{Sig: sig,
 			What:   fmt.Sprintf("NewTendermintWALStore fails on a crash image (%s): %v", label, err),
 			Replay: r.replay(map[string]any{"image": at, "label": label})})
 		if wantOK {
@@ -364,7 +423,7 @@ func (r *runner) checkDir(dbPath, label string, at any, wantOK bool, want []stri
 	if !ok {
 		sig := classify(got, allowed, ackedPre, inflight)
 		r.res.Hit("image:violation")
-		keepBest(lib.Violation{Sig: sig,
+		r.viol(lib.Violation{Sig: sig,
 			What:   fmt.Sprintf("after a crash (%s) LoadAllEntries returns %d entries, allowed: %d or %d (%s)", label, len(got), len(allowed[0]), len(allowed[len(allowed)-1]), sig),
 			Replay: r.replay(map[string]any{"image": at, "label": label, "got": got, "allowed": allowed})})
 	}
@@ -692,7 +751,7 @@ func (r *runner) checkOracleOnly(dbPath, label string, at any, allowed [][]strin
 	r.nImages++
 	r.res.Case(fmt.Sprintf("%s/%d/%s/%v", r.name, len(r.log), label, at), len(allowed[0]) > 0 || len(allowed[len(allowed)-1]) > 0)
 	if err != nil {
-		keepBest(lib.Violation{Sig: "reopen-error-on-crash-image",
+		r.viol(lib.Violation{Sig: "reopen-error-on-crash-image",
 			What:   fmt.Sprintf("NewTendermintWALStore fails on a crash image (%s): %v", label, err),
 			Replay: r.replay(map[string]any{"image": at, "label": label})})
 		return
@@ -703,7 +762,7 @@ func (r *runner) checkOracleOnly(dbPath, label string, at any, allowed [][]strin
 		}
 	}
 	sig := classify(got, allowed, r.acked, inflight)
-	keepBest(lib.Violation{Sig: sig,
+	r.viol(lib.Violation{Sig: sig,
 		What:   fmt.Sprintf("after a crash (%s) LoadAllEntries returns %d entries, allowed: %d or %d (%s)", label, len(got), len(allowed[0]), len(allowed[len(allowed)-1]), sig),
 		Replay: r.replay(map[string]any{"image": at, "label": label, "got": got, "allowed": allowed})})
 }
@@ -926,7 +985,7 @@ func (r *runner) exec(o Op) {
 				r.res.Hit(o.K + ":error-after-commit")
 			default:
 				committed = totalBatches(postDisk) > totalBatches(preDisk)
-				keepBest(lib.Violation{Sig: "failed-flush-leaves-partial-state-in-memory",
+				r.viol(lib.Violation{Sig: "failed-flush-leaves-partial-state-in-memory",
 					What:   fmt.Sprintf("%s returned %v and LoadAllEntries shows neither the state before nor the state after the batch", o.K, err),
 					Replay: r.replay(map[string]any{"live": live})})
 			}
@@ -983,7 +1042,7 @@ func (r *runner) exec(o Op) {
 			r.mismatch("outcome:open", "open", m, fmt.Sprint(err))
 		}
 		if err != nil {
-			keepBest(lib.Violation{Sig: "reopen-error",
+			r.viol(lib.Violation{Sig: "reopen-error",
 				What:   fmt.Sprintf("NewTendermintWALStore fails on the directory the history left: %v", err),
 				Replay: r.replay(nil)})
 			r.failed = true
@@ -1130,13 +1189,13 @@ func newRunner(name string, f lib.Flags, res *lib.Result, rng *lib.RNG, level in
 		return nil, err
 	}
 	sweeps := 0
-	if level >= 2 && rng.Bool() {
+	if level >= 2 && rng.Intn(3) == 0 {
 		sweeps = 1
 	}
 	if name == "replay-0" {
 		sweeps = 1 << 20
 	}
-	return &runner{name: name, f: f, res: res, rng: rng, drv: drv, real: newRealSide(root), level: level, serial: serial, sweeps: sweeps}, nil
+	return &runner{name: name, f: f, res: res, rng: rng, drv: drv, real: newRealSide(root), level: level, serial: serial, sweeps: sweeps, viol: keepBest}, nil
 }
 
 func (r *runner) done() {
@@ -1227,8 +1286,8 @@ func main() {
 	for _, fx := range fixedHistories() {
 		jobs = append(jobs, job{name: fx.name, ops: fx.ops, level: lvl, serial: true, seed: 7})
 	}
-	add("short", f.Scale(500, 3000), lvl, func(g *lib.RNG) []Op { return genShort(g, false) })
-	add("fault", f.Scale(300, 2000), lvl, func(g *lib.RNG) []Op { return genShort(g, true) })
+	add("short", f.Scale(500, 2400), lvl, func(g *lib.RNG) []Op { return genShort(g, false) })
+	add("fault", f.Scale(300, 1600), lvl, func(g *lib.RNG) []Op { return genShort(g, true) })
 	add("gc", f.Scale(60, 300), f.Scale(0, 1), func(g *lib.RNG) []Op { return genGC(g, false) })
 	add("gcfault", f.Scale(24, 120), f.Scale(0, 1), func(g *lib.RNG) []Op { return genGC(g, true) })
 	// longest first within a shard would not help: interleave by index
@@ -1250,6 +1309,11 @@ func main() {
 }
 
 func finish(f lib.Flags, res *lib.Result) {
+	if *shardFlag >= 0 {
+		for sig, v := range best {
+			best[sig] = shrink(v, f)
+		}
+	}
 	flushBest(res)
 	lib.Finish(f, res)
 }
